@@ -152,6 +152,10 @@ pub enum Rec {
     StopProcessed,
     /// waker queue content at the start of an accept turn
     AcceptQueueBefore(Vec<String>),
+    /// the interests the accept loop took off its queue in this turn (those queued before the
+    /// turn plus those pushed while it ran, minus what is left)
+    AcceptProcessed(Vec<String>),
+    QueuePushed(String),
     AcceptExited,
     AcceptJoin { exited: bool },
     WorkerGone { slot: usize },
@@ -225,6 +229,17 @@ pub struct World {
     pub cmds: RefCell<Vec<CmdFut>>,
     // preemption
     points: RefCell<Vec<Pt>>,
+    /// the accept loop is in the middle of `accept_step` (nested events run inside it)
+    in_accept_step: Cell<bool>,
+    pub unrepresentable_join: Cell<bool>,
+    /// interests pushed to the waker queue since the current accept turn began
+    turn_pushed: RefCell<Vec<String>>,
+    /// generic nesting: per point of the current step, the internal events of other actors
+    /// that are enabled at that very moment (filled only when `observe_points` is set)
+    pub observe_points: Cell<bool>,
+    point_enabled: RefCell<Vec<Vec<Ev>>>,
+    /// ... and what is enabled right after the planned nested sequence ran (still at the point)
+    after_plan_enabled: RefCell<Vec<Ev>>,
     /// slots whose worker died of an injected panic
     dying: RefCell<BTreeSet<usize>>,
     tearing_down: Cell<bool>,
@@ -395,7 +410,24 @@ impl Observer for Obs {
     }
 
     fn accept_join(&self, exited: bool) {
-        self.0.rec(Rec::AcceptJoin { exited });
+        let w = &self.0;
+        if !exited && w.in_accept_step.get() && !w.accept_dead.get() {
+            // The server task reached its blocking join of the accept thread while that thread is
+            // in the middle of a step. On real threads the join simply waits for the rest of the
+            // step; one thread cannot suspend the server task inside a synchronous call, so this
+            // schedule is not representable here and the execution is discarded.
+            w.nested_invalid.set(true);
+            w.unrepresentable_join.set(true);
+            return;
+        }
+        w.rec(Rec::AcceptJoin { exited });
+    }
+
+    fn queue_pushed(&self, queue: &[String]) {
+        if let Some(last) = queue.last() {
+            self.0.turn_pushed.borrow_mut().push(last.clone());
+            self.0.rec(Rec::QueuePushed(last.clone()));
+        }
     }
 }
 
@@ -533,6 +565,10 @@ impl World {
             p.push(pt);
             p.len() - 1
         };
+        if self.observe_points.get() {
+            let en = self.enabled_internal_now();
+            self.point_enabled.borrow_mut().push(en);
+        }
         let plan = {
             let mut plan = self.plan.borrow_mut();
             match &*plan {
@@ -546,8 +582,33 @@ impl World {
                 self.rec(Rec::PointSeen(pt));
                 self.apply_nested(ev);
             }
+            if self.observe_points.get() && !self.nested_invalid.get() {
+                *self.after_plan_enabled.borrow_mut() = self.enabled_internal_now();
+            }
             self.in_nested.set(false);
         }
+    }
+
+    /// Internal events that could run right now (the actor that is in the middle of its own
+    /// step is not "present": its task / loop object is taken out while it runs).
+    fn enabled_internal_now(&self) -> Vec<Ev> {
+        let mut out = vec![];
+        for ev in std::iter::once(Ev::AcceptTurn).chain((0..verif::worker_slots()).map(Ev::WorkerTurn)).chain(std::iter::once(Ev::ServerTurn)) {
+            if self.nested_enabled(ev) {
+                out.push(ev);
+            }
+        }
+        let inflight: Vec<usize> = self.inflight.borrow().keys().copied().collect();
+        for c in inflight {
+            if self.nested_enabled(Ev::Complete(c)) {
+                out.push(Ev::Complete(c));
+            }
+        }
+        out
+    }
+
+    pub fn take_point_enabled(&self) -> (Vec<Vec<Ev>>, Vec<Ev>) {
+        (std::mem::take(&mut *self.point_enabled.borrow_mut()), std::mem::take(&mut *self.after_plan_enabled.borrow_mut()))
     }
 
     fn add_edge(&self, token: usize) {
@@ -707,8 +768,29 @@ impl World {
             before_view = Some(v);
         }
         let log_len = self.log.borrow().len();
+        self.turn_pushed.borrow_mut().clear();
+        self.in_accept_step.set(true);
         let r = mcutil::quiet_catch(|| verif::accept_step());
+        self.in_accept_step.set(false);
         self.last_accept_turn.set(Some(tokio::time::Instant::now()));
+        if r.is_ok() {
+            if let Some(b) = &before_view {
+                let waker_seen = self.log.borrow()[log_len..].iter().any(|(_, _, r)| matches!(r, Rec::AcceptTokens(t) if t.contains(&usize::MAX)));
+                let mut all = b.queue.clone();
+                all.extend(self.turn_pushed.borrow().iter().cloned());
+                let processed: Vec<String> = if !waker_seen {
+                    vec![]
+                } else if verif::accept_exited() {
+                    // `Stop` ends the loop at once; what was queued behind it is never looked at
+                    let upto = all.iter().position(|c| c == "Stop").map_or(all.len(), |p| p + 1);
+                    all[..upto].to_vec()
+                } else {
+                    let left = verif::accept_view().map_or(0, |v| v.queue.len());
+                    all[..all.len().saturating_sub(left)].to_vec()
+                };
+                self.rec(Rec::AcceptProcessed(processed));
+            }
+        }
         match r {
             Ok(()) => {
                 if verif::accept_exited() {
@@ -865,9 +947,8 @@ impl World {
         }
     }
 
-    fn apply_nested(&self, ev: Ev) {
-        // a nested event must be enabled at this very moment, otherwise the schedule is not real
-        let enabled = match ev {
+    fn nested_enabled(&self, ev: Ev) -> bool {
+        match ev {
             Ev::AcceptTurn => verif::accept_present() && !verif::accept_exited() && (self.epoll_ready() || self.accept_timer_expired()),
             Ev::WorkerTurn(s) => s < verif::worker_slots() && verif::worker_local_present(s) && self.worker_flag_set(s),
             Ev::ServerTurn => self.server.borrow().is_some() && self.server_flag_set(),
@@ -879,8 +960,12 @@ impl World {
                 self.inflight.borrow().contains_key(&c) && slot.map_or(false, |s| verif::worker_local_present(s))
             }
             _ => false,
-        };
-        if !enabled {
+        }
+    }
+
+    fn apply_nested(&self, ev: Ev) {
+        // a nested event must be enabled at this very moment, otherwise the schedule is not real
+        if !self.nested_enabled(ev) {
             self.nested_invalid.set(true);
             return;
         }
@@ -953,6 +1038,12 @@ impl Sys {
             torn_down: RefCell::new(BTreeSet::new()),
             cmds: RefCell::new(vec![]),
             points: RefCell::new(vec![]),
+            in_accept_step: Cell::new(false),
+            unrepresentable_join: Cell::new(false),
+            turn_pushed: RefCell::new(vec![]),
+            observe_points: Cell::new(false),
+            point_enabled: RefCell::new(vec![]),
+            after_plan_enabled: RefCell::new(vec![]),
             dying: RefCell::new(BTreeSet::new()),
             tearing_down: Cell::new(false),
             plan: RefCell::new(None),
@@ -1020,6 +1111,8 @@ impl Sys {
         let w = self.w.clone();
         w.step.set(w.step.get() + 1);
         w.points.borrow_mut().clear();
+        w.point_enabled.borrow_mut().clear();
+        w.after_plan_enabled.borrow_mut().clear();
         w.set_plan(nested);
         match ev {
             Ev::Connect(l) => self.connect(l),
